@@ -209,7 +209,7 @@ def tlc(module, cfg, workers=8, timeout=3600, simulate=None, depth=None, env=Non
     name = name or (os.path.splitext(os.path.basename(cfg))[0])
     wd = workdir("tlc_" + name)
     cmd = ["tlc", "-workers", str(workers), "-config", os.path.join(SPEC, cfg), "-metadir", os.path.join(wd, "states"),
-           "-cleanup", "-noGenerateSpecTE"]
+           "-cleanup", "-noGenerateSpecTE", "-seed", str(SEED)]
     if coverage:
         cmd += ["-coverage", "1"]
     if simulate:
